@@ -15,21 +15,21 @@ from __future__ import annotations
 import itertools
 import time
 
-from .. import core, seqref, vt
+from .. import core, merge_ilv, seqref, vt
 
 PROPERTY = "C11"
 LEVEL = "exploration"
 META = {
     "engine": "vtx",
     "technique": "bounded-exhaustive enumeration of (merge-family operator form, outer timeline, inner timelines, max_concurrent) on "
-    "virtual time against a nondeterministic merge reference simulator closed over all orders of simultaneous events",
+    "virtual time against a nondeterministic merge reference simulator closed over all orders of simultaneous events; plus stateless exhaustive exploration of thread interleavings (bounded preemptions) with the outer sequence and every inner emitting from their own threads",
     "text": "merge (function, operator with sources, operator with max_concurrent), merge_all, flat_map (mapper, constant observable, "
     "iterable results), flat_map_indexed and concat_map are run on every outer timeline with <=K inner arrivals and every tuple of "
     "inner timelines of the structural set; the recorded output (instants, values, terminal) and the inner subscription log (arrival "
     "order, subscribe and close instants) must be a member of the reference's closure, and at no step may more than max_concurrent "
     "inners be running; exhaustive within the stated bounds",
     "note": "trusted: CPython, the harness in /verif/vf (vt.py sources, seqref.py simulator), VirtualTimeScheduler's queue discipline "
-    "(checked by C28/C29); single-threaded virtual time only (concurrent sources are C43's subject)",
+    "(checked by C28/C29); the thread part: controlled primitives of vf/ilv.py, preemption at sync operations and line boundaries of the focus files",
 }
 RULE = (
     "all (operator form, max_concurrent, arrival pattern, outer terminal, inner timeline tuple) combinations within the bounds; "
@@ -263,13 +263,16 @@ def run(ctx: core.Ctx):
     ctx.assumptions = [
         "VirtualTimeScheduler queue discipline (checked separately by C28/C29)",
         "harness sources are conforming and honour disposal; whether a hot inner's event in the very instant of its subscription reaches the new subscriber is left open (both accepted)",
-        "single-threaded virtual time (serialisation of concurrent sources is C43)",
+        "virtual-time part: single-threaded (serialisation of concurrent sources is C43)",
     ]
+    merge_ilv.run_part(ctx)  # E3: outer and inners on their own threads
     part = ctx.sharded(shard)
     ctx.cov["operators_covered"] = sorted(k[3:] for k in part.counters if k.startswith("op:"))
 
 
 def replay(case):
+    if isinstance(case, dict) and str(case.get("harness", "")).startswith("merge-threads|"):
+        return merge_ilv.replay(case)
     case = dict(case)
     case["sources"] = {n: [k, [tuple(x) for x in tl]] for n, (k, tl) in case["sources"].items()}
     problems, ob, stats = run_case(case)
